@@ -13,6 +13,15 @@ TRUSTED = [
     "correspondence, not proved); documents the model rejects as not-modelled are counted, not compared",
     "the specification erasures skel_tok / skel_node in coq/Doc/Skel.v say what 'faithful image' means",
     "markdown-it-py and its plug-ins produce the token tree (oracle: the theorems are about every token forest)",
+    "gen/c02_pysrc.py (source-translation tie): the mapping of Python statements of the straight-line render methods to "
+    "instructions of coq/Doc/Prog.v - nodes.CLS(..) = allocation (new_text_elem for a TextElement with text), node[key]=v / "
+    "constructor keywords = the initial attribute dict in source order, copy_attributes / create_warning / set_refuri = the "
+    "registry operations, `with current_node_context(node, append=True)` = Ctx, current_node.append = Append; "
+    "add_line_and_source_path is dropped (line / source are not modelled); tests on state outside the model "
+    "(relative-images, links_external_new_tab, url conversion) are constant false under the static configuration; a branch "
+    "outside the model guarded by a token-only test and attribute keys with a converter are hoisted to an ENotModelled guard; "
+    "heading, table, clean_astext, current_node_context and the two dispatch loops are pinned by the hash of their normalised "
+    "source (gen/c02_pysrc_pins.json): an edit there is reported as a broken tie",
 ]
 ORACLES = {
     "O_tree": "SyntaxTreeNode nesting = token nesting; the renderer receives the token stream of the parser built by "
@@ -39,7 +48,9 @@ ASSUMPTIONS = ["linkify-it-py is not installed: gfm mode / the linkify extension
 
 def gen(ctx):
     from gen import c02_render
+    from gen import c02_pysrc
     c02_render.run(ctx)
+    c02_pysrc.run(ctx)      # Gen/RenderSrc.v: the straight-line render methods, statement by statement (round 3)
 
 
 def _h(s):
@@ -52,7 +63,10 @@ def corr_cases(ctx):
     from gen import c02_lib as L
     rng = ctx.rng
     spec = G.commonmark_spec_inputs()
+    quick = ctx.tier == "quick" and not ctx.deep
     for i, text in enumerate(spec):
+        if quick and i % 2:            # quick tier: every second CommonMark spec input (the thorough tier takes all)
+            continue
         for mode in L.MODES:
             yield "spec", {"text": text, "mode": mode, "exts": [], "backend": "docutils"}
         if i % 2 == 0:
@@ -82,11 +96,11 @@ def corr_cases(ctx):
                            "backend": ("docutils", "sphinx")[i % 2]}
         yield "dyn-seed", {"text": "---\nmyst:\n  substitutions:\n    key: v\n---\n\n- *" + r + "*\n", "mode": "myst", "exts": dyn_exts,
                            "backend": ("sphinx", "docutils")[i % 2]}
-    for i in range(ctx.budget(500, 4000, 4000)):
+    for i in range(ctx.budget(300, 4000, 4000)):
         exts = [e for e in L.STATIC_EXTS if rng.random() < 0.6] + [e for e in G.DYN_EXTS if rng.random() < 0.8]
         backend = "sphinx" if rng.random() < 0.4 else "docutils"
         yield "dyn", {"text": G.gen_dynamic_doc(rng, "myst", exts), "mode": "myst", "exts": exts, "backend": backend, "kw": {}}
-    n = ctx.budget(1800, 14000, 14000)
+    n = ctx.budget(1100, 14000, 14000)
     depth = 6 if ctx.tier == "quick" and not ctx.deep else 10
     for i in range(n):
         mode = rng.choice(["myst", "myst", "myst", "gfm", "commonmark"])
@@ -148,7 +162,8 @@ def corr(ctx):
             ctx.disagree("C02_faithful statement: skeletons differ although all premises hold", case, "skel_node(doc)", "skel_tok(tokens)")
     # round 2, measured statements (extracted checks of coq/Doc/Backends.v on the same real token trees)
     # (a) totality conjecture: a forest satisfying static_total is rendered by the model
-    for case, r in zip(batch, M.model_measure(PID, "total", batch)):
+    mb = batch[::2] if ctx.tier == "quick" and not ctx.deep else batch      # quick tier: every second case
+    for case, r in zip(mb, M.model_measure(PID, "total", mb)):
         if r is None:
             continue
         ctx.corr_cases += 1
@@ -160,6 +175,8 @@ def corr(ctx):
     # (b) both back ends, full node equality after the erasure erase_be (documents without dynamic syntax: the runs of
     #     a directive / role are different programs in the two back ends)
     nd = [c for l, c in zip(labels, batch) if not l.startswith("dyn")]
+    if ctx.tier == "quick" and not ctx.deep:
+        nd = nd[::2]
     for case, r in zip(nd, M.model_measure(PID, "agree", nd)):
         if r is None:
             continue
